@@ -41,6 +41,9 @@ func main() {
 		case "leveldb":
 			leveldbFeature(*repo, *out, replace)
 		case "sched":
+			if !strings.Contains(" "+*feats+" ", " mapiter ") {
+				mapiter(*out, replace) // the scheduler needs runtime.VerifGoid
+			}
 			schedFeature(*repo, *out, replace)
 		case "race":
 		default:
